@@ -46,19 +46,23 @@ pub struct QCfg {
     /// queues only): the call may fail in any way it likes, but without side effects, and if it
     /// succeeds the new chain and every outstanding one must be intact.
     pub oom: bool,
+    /// Include submissions that break the documented precondition "the buffers must not be
+    /// empty" (an empty buffer after the first one). The call may panic (the history ends there);
+    /// if it returns an error instead, the refusal must be free of side effects like any other.
+    pub bad_args: bool,
 }
 
 impl QCfg {
     pub fn label<const N: usize>(&self) -> String {
         format!(
-            "qcore:N={},indirect={},event_idx={},ap={},legacy={},off={},nops={},abs={},trace={},rs={},pre={},wp={},oom={}",
-            N, self.indirect as u8, self.event_idx as u8, self.ap as u8, self.legacy as u8, self.start_off, self.notify_ops as u8, self.abstract_idx as u8, self.trace as u8, self.reduced as u8, self.preroll, self.wait_pop as u8, self.oom as u8
+            "qcore:N={},indirect={},event_idx={},ap={},legacy={},off={},nops={},abs={},trace={},rs={},pre={},wp={},oom={},bad={}",
+            N, self.indirect as u8, self.event_idx as u8, self.ap as u8, self.legacy as u8, self.start_off, self.notify_ops as u8, self.abstract_idx as u8, self.trace as u8, self.reduced as u8, self.preroll, self.wait_pop as u8, self.oom as u8, self.bad_args as u8
         )
     }
     pub fn parse(s: &str) -> Option<(usize, QCfg)> {
         let s = s.strip_prefix("qcore:")?;
         let mut n = 0usize;
-        let mut c = QCfg { indirect: false, event_idx: false, ap: false, legacy: false, start_off: 0, notify_ops: false, abstract_idx: false, trace: false, reduced: false, preroll: 0, wait_pop: false, oom: false };
+        let mut c = QCfg { indirect: false, event_idx: false, ap: false, legacy: false, start_off: 0, notify_ops: false, abstract_idx: false, trace: false, reduced: false, preroll: 0, wait_pop: false, oom: false, bad_args: false };
         for kv in s.split(',') {
             let (k, v) = kv.split_once('=')?;
             let v: u64 = v.parse().ok()?;
@@ -76,6 +80,7 @@ impl QCfg {
                 "pre" => c.preroll = v as u8,
                 "wp" => c.wait_pop = v != 0,
                 "oom" => c.oom = v != 0,
+                "bad" => c.bad_args = v != 0,
                 _ => return None,
             }
         }
@@ -96,6 +101,7 @@ pub const A_WAIT_POP: u16 = 220;
 /// busy-waits, or after the helper has returned.
 pub const A_WAIT_POP_LATE: u16 = 221;
 pub const A_ADD_OOM0: u16 = 300;
+pub const A_ADD_EMPTY0: u16 = 400;
 
 pub fn shapes_for_cfg(n: usize, reduced: bool) -> Vec<(usize, usize)> {
     if !reduced {
@@ -168,6 +174,8 @@ pub struct World<const N: usize> {
     pops: u16,
     notify_setting: u16,
     adds: u32,
+    /// The history ended (a call broke its precondition and the library panicked or accepted it).
+    dead: bool,
     tracer: Option<Box<crate::tracer::Tracer>>,
     /// Accesses of the driver to the traced region during the checked call.
     pub accesses: Vec<crate::tracer::Access>,
@@ -204,6 +212,7 @@ impl<const N: usize> World<N> {
             pops: 0,
             notify_setting: 0,
             adds: 0,
+            dead: false,
             tracer: None,
             accesses: vec![],
             read_faults: 0,
@@ -440,6 +449,16 @@ impl<const N: usize> World<N> {
             v.push(A_WAIT_POP);
             v.push(A_WAIT_POP_LATE);
         }
+        if self.dead {
+            return vec![];
+        }
+        if self.cfg.bad_args {
+            for (i, (ni, no)) in shapes_for_cfg(N, self.cfg.reduced).iter().enumerate() {
+                if ni + no >= 2 {
+                    v.push(A_ADD_EMPTY0 + i as u16);
+                }
+            }
+        }
         if self.cfg.oom && self.cfg.indirect {
             for (i, (ni, no)) in shapes_for_cfg(N, self.cfg.reduced).iter().enumerate() {
                 if ni + no > 0 {
@@ -483,6 +502,13 @@ impl<const N: usize> World<N> {
             A_NOTIFY_ON => "set_dev_notify(true)".into(),
             A_WAIT_POP => "add_notify_wait_pop(1 readable, 1 writable), device serves it when notified".into(),
             A_WAIT_POP_LATE => "add_notify_wait_pop(1 readable, 1 writable), device busy when notified: serves while the driver waits or after the call".into(),
+            x if x >= A_ADD_EMPTY0 && x < A_ADD_EMPTY0 + 64 => {
+                let s = shapes_for_cfg(N, reduced);
+                match s.get((x - A_ADD_EMPTY0) as usize) {
+                    Some((i, o)) => format!("add({} readable, {} writable) whose second buffer is empty (precondition broken)", i, o),
+                    None => format!("add(shape {}?) with an empty buffer", x - A_ADD_EMPTY0),
+                }
+            }
             x if x >= A_ADD_OOM0 && x < A_ADD_OOM0 + 64 => {
                 let s = shapes_for_cfg(N, reduced);
                 match s.get((x - A_ADD_OOM0) as usize) {
@@ -500,6 +526,7 @@ impl<const N: usize> World<N> {
         match a {
             x if x < A_COMPLETE0 => self.do_add(x as usize, check, false),
             x if x >= A_ADD_OOM0 && x < A_ADD_OOM0 + 64 => self.do_add((x - A_ADD_OOM0) as usize, check, true),
+            x if x >= A_ADD_EMPTY0 && x < A_ADD_EMPTY0 + 64 => self.do_add_empty((x - A_ADD_EMPTY0) as usize, check),
             x if x < A_POP_RIGHT => self.do_complete((x - A_COMPLETE0) as usize, check),
             A_POP_RIGHT => self.do_pop_right(check),
             A_POP_WRONG_OUT => {
@@ -537,6 +564,53 @@ impl<const N: usize> World<N> {
         }
         // Keep the ledger small.
         hal::with(|h| h.compact());
+    }
+
+    /// A submission whose second buffer is empty. Outcomes: panic (history ends), an error (must
+    /// be free of side effects), or acceptance (then the history ends too: what a zero-length
+    /// descriptor means to the device is outside this harness).
+    fn do_add_empty(&mut self, shape: usize, check: bool) {
+        let shapes = shapes_for_cfg(N, self.cfg.reduced);
+        let (ni, no) = shapes[shape];
+        let pos = self.cfg.start_off.wrapping_add(self.adds as u16);
+        let seed = pos as u32;
+        let mut k = 0usize;
+        let mut mk = |len: usize| -> Box<[u8]> {
+            let l = if k == 1 { 0 } else { len };
+            k += 1;
+            vec![0x33u8; l].into_boxed_slice()
+        };
+        let ins: Vec<Box<[u8]>> = (0..ni).map(|i| mk(1 + (i + seed as usize) % 5)).collect();
+        let mut outs: Vec<Box<[u8]>> = (0..no).map(|i| mk(1 + (i * 2 + seed as usize) % 6)).collect();
+        let before = self.snap();
+        let res = {
+            let in_refs: Vec<&[u8]> = ins.iter().map(|b| unsafe { std::slice::from_raw_parts(b.as_ptr(), b.len()) }).collect();
+            let mut out_refs: Vec<&mut [u8]> = outs.iter_mut().map(|b| unsafe { std::slice::from_raw_parts_mut(b.as_mut_ptr(), b.len()) }).collect();
+            self.traced(false, |q| unsafe { q.add(&in_refs, &mut out_refs) })
+        };
+        match res {
+            Err(_) => {
+                tag("add-empty:panicked");
+                self.dead = true;
+            }
+            Ok(Ok(_)) => {
+                tag("add-empty:accepted");
+                self.dead = true;
+            }
+            Ok(Err(e)) => {
+                tag("add-empty:refused");
+                if check {
+                    let after = self.snap();
+                    if after != before {
+                        if after.hal_log_len != before.hal_log_len {
+                            viol("C04", "refused-add-shared", format!("add({},{}) with an empty buffer was refused ({:?}) but made platform share/unshare calls", ni, no, e));
+                        }
+                        viol("C03", "refused-add-side-effect", format!("add({},{}) with an empty buffer was refused ({:?}) but changed queue state or device-visible memory", ni, no, e));
+                        viol("C01", "refused-add-side-effect", format!("add({},{}) with an empty buffer was refused ({:?}) but left the free list / descriptor table changed: later chains will share descriptors with outstanding ones", ni, no, e));
+                    }
+                }
+            }
+        }
     }
 
     fn do_add(&mut self, shape: usize, check: bool, oom: bool) {
@@ -1097,6 +1171,10 @@ impl<const N: usize> World<N> {
     }
 
     fn check_queries(&mut self) {
+        if self.dead {
+            // The history ended with a call that broke its precondition: nothing more is judged.
+            return;
+        }
         let held = self.held();
         let q = self.q.as_ref().unwrap();
         let can = q.can_pop();
@@ -1184,6 +1262,11 @@ impl<const N: usize> World<N> {
     /// Canonical key of the complete concrete state (addresses renamed by owner).
     pub fn key(&self) -> u128 {
         let mut h = H128::new();
+        if self.dead {
+            // All ended histories are one state without successors.
+            h.u64(0xdead_dead_dead_dead);
+            return h.finish128();
+        }
         let a = self.refq.a;
         // Address renaming: device address -> (owner token, element index).
         let mut names: Vec<(u64, u64)> = vec![];
